@@ -1,0 +1,137 @@
+//go:build verif
+
+// Contracts for the deductive verifier in /verif (govc). This file is compiled only with
+// -tags verif and contains no production code: contracts are the //@ comment blocks, keyed by
+// function name and loop ordinal; lemma harnesses are ordinary functions that call the real
+// code and end in verifAssert.
+
+package uasc
+
+import "github.com/gopcua/opcua/ua"
+
+func verifAssert(label string, cond bool) {
+	if !cond {
+		panic("verif: assertion failed: " + label)
+	}
+}
+
+func verifCanary(label string, cond bool) {}
+
+// ---------------------------------------------------------------------------
+// C38 / C07: chunk size arithmetic
+// ---------------------------------------------------------------------------
+
+//@ pred symAlgo(a *uapolicy.EncryptionAlgorithm) := a != nil &&
+//@     ((a.blockSize == 16 && a.plainttextBlockSize == 16 &&
+//@       (a.signatureLength == 20 || a.signatureLength == 32) &&
+//@       a.remoteSignatureLength == a.signatureLength) ||
+//@      (a.blockSize == 1 && a.plainttextBlockSize == 1 &&
+//@       a.signatureLength == 0 && a.remoteSignatureLength == 0))
+
+// a symmetric message ready to be secured
+//@ pred symMsg(m *Message) := m != nil && m.MessageHeader != nil && m.MessageHeader.Header != nil &&
+//@     m.MessageHeader.AsymmetricSecurityHeader == nil && m.MessageHeader.SymmetricSecurityHeader != nil
+
+//@ pred chanOK(c *channelInstance) := c != nil && c.sc != nil && c.sc.cfg != nil && symAlgo(c.algo)
+
+//@ func (*channelInstance).SetMaximumBodySize
+//@   props C38 C07
+//@   nooverflow
+//@   requires c != nil && symAlgo(c.algo)
+//@   requires 8192 <= chunkSize && chunkSize <= 4294967295
+//@   let PB = c.algo.plainttextBlockSize
+//@   let B = c.algo.blockSize
+//@   let S = c.algo.signatureLength
+//@   assigns c.maxBodySize
+//@   ensures [C38:formula] int(c.maxBodySize) == PB*((chunkSize-16)/B) - 8 - S - 1
+//@   ensures [C38:positive] c.maxBodySize > 0
+//@   canary ensures [C38:canary-floor] int(c.maxBodySize) == PB*((chunkSize-16-1)/B) - 8 - S
+
+//@ func (*channelInstance).signAndEncrypt
+//@   props C38 C07
+//@   nooverflow
+//@   requires chanOK(c) && symMsg(m)
+//@   requires 24 <= len(b) && len(b) <= 4294967295 - 4096
+//@   split c.algo.blockSize == 16 && c.algo.signatureLength == 20
+//@   split c.algo.blockSize == 16 && c.algo.signatureLength == 32
+//@   split c.algo.blockSize == 1
+//@   let mode = c.sc.cfg.SecurityMode
+//@   let PB = c.algo.plainttextBlockSize
+//@   let B = c.algo.blockSize
+//@   let S = c.algo.signatureLength
+//@   let rem = (len(b) - 16 + S + 1) % PB
+//@   let pad = ite(rem == 0, 0, PB - rem)
+//@   assigns m.MessageHeader.Header.MessageSize, elems(b), c.algo.signature, c.algo.encrypt
+//@   ensures [C07:none] mode == ua.MessageSecurityModeNone ==> err == nil && sameslice(result0, b)
+//@   ensures [C07:sign] mode != ua.MessageSecurityModeNone && mode != ua.MessageSecurityModeSignAndEncrypt && err == nil ==>
+//@           len(result0) == len(b) + S
+//@   ensures [C07:enc] mode == ua.MessageSecurityModeSignAndEncrypt && err == nil ==>
+//@           (len(b) - 16 + pad + 1 + S) % PB == 0 &&
+//@           len(result0) == 16 + ((len(b) - 16 + pad + 1 + S) / PB) * B
+//@   ensures [C07:size] mode != ua.MessageSecurityModeNone && err == nil ==>
+//@           int(m.MessageHeader.Header.MessageSize) == len(result0)
+//@   loop 0 invariant 0 <= i && i <= paddingLength + 1 && len(b) == len(old(b)) + i
+//@   loop 0 invariant 0 <= paddingLength && paddingLength < 16 && 24 <= len(old(b))
+//@   loop 0 invariant arr(b) == arr(old(b)) || fresh(b)
+//@   loop 0 decreases paddingLength + 1 - i
+
+// Lemma C38: a body of at most maxBodySize bytes yields a chunk that fits chunkSize and is block aligned.
+//@ func verifLemmaMaxBodyFits
+//@   props C38
+//@   requires chanOK(c) && symMsg(m)
+//@   requires 8192 <= chunkSize && chunkSize <= 4294967295
+//@   split c.algo.blockSize == 16 && c.algo.signatureLength == 20
+//@   split c.algo.blockSize == 16 && c.algo.signatureLength == 32
+//@   split c.algo.blockSize == 1
+func verifLemmaMaxBodyFits(c *channelInstance, m *Message, chunkSize int, chunk []byte) {
+	c.SetMaximumBodySize(chunkSize)
+	if len(chunk) < 24 || len(chunk)-24 > int(c.maxBodySize) || len(chunk) > 4294967295-4096 {
+		return // outside the lemma's domain
+	}
+	out, err := c.signAndEncrypt(m, chunk)
+	if err != nil {
+		return
+	}
+	verifAssert("C38:fits", len(out) <= chunkSize)
+	if c.sc.cfg.SecurityMode == ua.MessageSecurityModeSignAndEncrypt {
+		verifAssert("C38:aligned", (len(out)-16)%c.algo.BlockSize() == 0)
+	}
+	verifCanary("C38:canary-fits-strict", len(out) < chunkSize-16)
+}
+
+// Lemma C38 (tightness): in SignAndEncrypt mode one more body byte no longer fits.
+//@ func verifLemmaMaxBodyTight
+//@   props C38
+//@   requires chanOK(c) && symMsg(m)
+//@   requires 8192 <= chunkSize && chunkSize <= 4294967295
+//@   split c.algo.blockSize == 16 && c.algo.signatureLength == 20
+//@   split c.algo.blockSize == 16 && c.algo.signatureLength == 32
+//@   split c.algo.blockSize == 1
+func verifLemmaMaxBodyTight(c *channelInstance, m *Message, chunkSize int, chunk []byte) {
+	c.SetMaximumBodySize(chunkSize)
+	if c.sc.cfg.SecurityMode != ua.MessageSecurityModeSignAndEncrypt || c.algo.BlockSize() != 16 {
+		return
+	}
+	if len(chunk) < 24 || len(chunk)-24 != int(c.maxBodySize)+1 || len(chunk) > 4294967295-4096 {
+		return
+	}
+	out, err := c.signAndEncrypt(m, chunk)
+	if err != nil {
+		return
+	}
+	verifAssert("C38:tight", len(out) > chunkSize)
+}
+
+// ---------------------------------------------------------------------------
+// C11: outgoing sequence numbers
+// ---------------------------------------------------------------------------
+
+//@ func (*channelInstance).nextSequenceNumber
+//@   props C11
+//@   requires c != nil
+//@   requires [seqInv] c.sequenceNumber <= 4294966272
+//@   assigns c.sequenceNumber
+//@   ensures [C11:next] (old(c.sequenceNumber) < 4294966272 ==> result == old(c.sequenceNumber) + 1) &&
+//@                      (old(c.sequenceNumber) == 4294966272 ==> result == 1)
+//@   ensures [C11:stored] c.sequenceNumber == result && result <= 4294966272 && result != 0
+//@   canary ensures [C11:canary-nowrap] result == old(c.sequenceNumber) + 1
